@@ -172,7 +172,9 @@ pub fn siqs(
     if rels.len() > fbase.len() + relations::MIN_KERNEL_SIZE {
         rels.truncate(fbase.len() + relations::MIN_KERNEL_SIZE)
     }
-    if s.gap.load(Ordering::Relaxed) != 0 && rels.len() <= fbase.len() {
+    // The gap atomic only steers early exit: a worker may publish a stale nonzero value
+    // after another worker found the set complete. Decide from the relation set itself.
+    if rels.len() <= fbase.len() && rels.gap(&fbase) != 0 {
         panic!("Internal error: not enough smooth numbers with selected parameters (n={n})");
     }
     let rels = rels.into_inner();
